@@ -2,7 +2,7 @@
 EXTENDS BclFmt
 TypeAtoms == {"IDENT", "BOOL", "STRING", "REGEX", "INT", "DECIMAL", "COMMENT", "BLOCK_COMMENT", "DESCRIPTION", "EOL",
               "=", "{", "}", "[", "]", ".", ",", ":", "+", "!", "?"}
-FmtAtoms == TypeAtoms \cup {"BLOCK_COMMENT_ML", "STRING_ML", "STRING_Q", "STRING_TAB", "STRING_NP", "STRING_U", "REGEX_SL"}
+FmtAtoms == TypeAtoms \cup {"BLOCK_COMMENT_ML", "STRING_ML", "STRING_Q", "STRING_TAB", "STRING_NP", "STRING_U", "STRING_QU", "STRING_MLU", "REGEX_SL", "DESCRIPTION_EMPTY"}
 Reps == {"INT"}
 OnlyFF == {TRUE}
 =============================================================================
